@@ -48,4 +48,9 @@ def cases(tier):  # noqa: F811
     for seed in ((1,) if tier == "quick" else (1, 2, 3)):
         cs.append(dict(name=f"minimize.maxfun.sym.seed{seed}", fn=h_minimize, params=dict(nmax=nmax, seed=seed), profile="fp", budget_s=1500, weight=50))
     cs.append(dict(name="minimize.maxiter2", fn=h_minimize, params=dict(maxiter=2), profile="fp", budget_s=600))
+    # the counting / cutoff wrappers themselves (shared with C16): every forwarded call is counted whatever it returns (incl. +-inf),
+    # a cutoff(N) never forwards more than N calls
+    from .c16 import h_stack
+    for s in (["count"], ["cutoff"], ["count", "cutoff"], ["cutoff", "count"], ["count", "count"]):
+        cs.append(dict(name="wrappers.fp." + "/".join(s), fn=h_stack, params=dict(kinds=list(s), m=4), profile="fp", oblig_timeout_s=120, budget_s=900))
     return cs
